@@ -27,11 +27,16 @@ theorem attrEv_uris (a : List (QN × Str)) : ((a.map attrEv).map evUris).flatten
   | nil => simp
   | cons kv r ih => simp [attrEv, evUris, dataUris] at ih ⊢
 
+theorem nilFlush_uris (a : List (QN × Str)) : ((nilFlush a).map evUris).flatten = [] := by
+  by_cases h : a.any (·.1 = xsiNil) = true
+  · simp [nilFlush, h, evUris, dataUris]
+  · simp [nilFlush, h]
+
 mutual
 theorem treeEv_uris (e : Env) (nil : Bool) : ∀ t : Tree, ((treeEv e nil t).map evUris).flatten = []
   | .node q a n tx c tl => by
     have ih := forestEv_uris e nil c
-    simp only [treeEv, List.map_append, List.flatten_append, attrEv_uris, ih, tailEv_uris, List.map_cons,
+    simp only [treeEv, List.map_append, List.flatten_append, attrEv_uris, nilFlush_uris, ih, tailEv_uris, List.map_cons,
       List.map_nil, List.flatten_cons, List.flatten_nil, evUris, textData_uris, List.append_nil]
 theorem forestEv_uris (e : Env) (nil : Bool) : ∀ ts : List Tree, ((forestEv e nil ts).map evUris).flatten = []
   | [] => by simp [forestEv]
@@ -46,7 +51,7 @@ end
 mutual
 theorem treeOK_names (isDt : Str → Bool) : ∀ t : Tree, treeOK isDt t = true → namesOK t = true
   | .node q a n tx c tl, h => by
-    obtain ⟨hq, _, _, _, _, hc⟩ := treeOK_node h
+    obtain ⟨hq, _, _, _, hc⟩ := treeOK_node h
     simp [namesOK, treeOKList_names isDt c hc]
     simpa using hq
 theorem treeOKList_names (isDt : Str → Bool) : ∀ ts : List Tree, treeOKList isDt ts = true → namesOKList ts = true
